@@ -544,6 +544,55 @@ func c07RecordCopies(c *fw.Ctx, r *fw.Rand) {
 			c.Violation("alias:mutating-record-copy-changed-source-document:"+kind, fmt.Sprintf("after adding a line to the copy of %s the document it was copied from reads differently:\n%s", gen.Describe(n), clip(after, 900)), payload)
 			return
 		}
+		// what the lines of a copied family lead to (their family, the people
+		// they name) is never an object of the document the copy was taken from
+		if _, isFam := n.(*gedcom.FamilyNode); isFam {
+			src := map[gedcom.Node]bool{}
+			var walk func(x gedcom.Node)
+			walk = func(x gedcom.Node) {
+				src[x] = true
+				for _, k := range x.Nodes() {
+					walk(k)
+				}
+			}
+			for _, x := range doc.Nodes() {
+				walk(x)
+			}
+			for _, k := range cp.Nodes() {
+				var fam *gedcom.FamilyNode
+				var ind *gedcom.IndividualNode
+				role := ""
+				fw.Try(func() {
+					switch x := k.(type) {
+					case *gedcom.HusbandNode:
+						role, fam, ind = "HUSB", x.Family(), x.Individual()
+					case *gedcom.WifeNode:
+						role, fam, ind = "WIFE", x.Family(), x.Individual()
+					case *gedcom.ChildNode:
+						role, fam, ind = "CHIL", x.Family(), x.Individual()
+					}
+				})
+				if role == "" {
+					continue
+				}
+				c.Count("copied-family-lines-followed", 1)
+				if fam != nil && src[fam] {
+					c.Violation("alias:copied-family-line-belongs-to-source-family:"+role, fmt.Sprintf("the %s line of the copy of %s says it belongs to the family record of the source document (Family() returns the source's object): a change made through it lands in the source", role, gen.Describe(n)), payload)
+					return
+				}
+				if ind != nil && src[ind] {
+					c.Violation("alias:copied-family-line-resolves-into-source-document:"+role, fmt.Sprintf("the %s line of the copy of %s (copied into a new, empty document) resolves to the individual object of the source document", role, gen.Describe(n)), payload)
+					return
+				}
+				if fam != nil {
+					fam.AddNode(gedcom.NewNode(gedcom.TagFromString("_VNEW"), "added through a line of the copy", ""))
+					if after := views(); after != before {
+						c.Violation("alias:mutating-record-copy-changed-source-document:"+kind, fmt.Sprintf("after adding a line to the family that the %s line of the copy of %s belongs to, the source document reads differently:\n%s", role, gen.Describe(n), clip(after, 900)), payload)
+						return
+					}
+				}
+			}
+		}
 		if _, isInd := n.(*gedcom.IndividualNode); isInd {
 			if _, ok := cp.(*gedcom.IndividualNode); !ok {
 				c.Violation("copy-kind:record:"+kind, fmt.Sprintf("the copy of an individual is a %T", cp), payload)
@@ -735,9 +784,23 @@ func c07Run(c *fw.Ctx, i int) {
 				// position (same length), the letter case of one byte, the empty
 				// value, another plain tag, another pointer
 				tag, val, ptr := target.Tag(), target.Value(), target.Pointer()
-				how := r.Intn(8)
-				c.Class("change", []string{"suffix", "prefix", "one-byte", "case", "empty", "tag", "pointer", "last-byte"}[how])
+				how := r.Intn(9)
+				c.Class("change", []string{"suffix", "prefix", "one-byte", "case", "empty", "tag", "pointer", "last-byte", "spacing-only"}[how])
 				switch how {
+				case 8:
+					// nothing but the spacing changes: a blank inside the value is
+					// doubled or becomes a tab; a value without one gets a blank
+					// at its end (nodes built through the API keep it)
+					if k := strings.Index(strings.TrimSpace(val), " "); k > 0 {
+						k += len(val) - len(strings.TrimLeft(val, " "))
+						if r.Bool() {
+							val = val[:k] + "  " + val[k+1:]
+						} else {
+							val = val[:k] + "\t" + val[k+1:]
+						}
+					} else {
+						val += " "
+					}
 				case 0:
 					val += "~changed"
 				case 1:
